@@ -11,7 +11,7 @@
   4. snapshots are pure: Pos::pos takes &self                                                          (R7)
 Not decided: that decoding after a seek yields the right symbols (value level).
 """
-from vlib import sym, rules, effects, anchors
+from vlib import pow2, sym, rules, effects, anchors
 from vlib.effects import Unresolved
 import props.C08 as c08
 import props.C17 as c17
@@ -225,10 +225,16 @@ def renorm_predicates(paths, lower_path):
         # last predicate taken before the shift that compares something with 1 << (S - W)
         cand = None
         for t, v, blk in r.preds:
-            if t[0] == 'bin' and t[1] in ('Lt', 'Le') and sym.contains(t, lambda x: x == ('bin', 'Sub', ('c', '<State as BitArray>::BITS'), ('c', '<Word as BitArray>::BITS'))):
-                cand = (t, v)
+            if not sym.contains(t, lambda x: x == ('bin', 'Sub', ('c', '<State as BitArray>::BITS'), ('c', '<Word as BitArray>::BITS'))):
+                continue
+            # canonical form `x < 2^E` (so that `x < 1 << k`, `x >> k == 0` and their negations are one predicate)
+            c = pow2.below_pow2(t, v, lambda x: pow2.bits_of('State'))
+            if c is not None:
+                cand = (('below', role_shape(c[0]), sym.affine_str(c[1])), bool(c[2]))
+            elif t[0] == 'bin' and t[1] in ('Lt', 'Le'):
+                cand = (role_shape(t), v)
         if cand:
-            out.add(repr((role_shape(cand[0]), cand[1])))
+            out.add(repr(cand))
     return out
 
 
@@ -371,9 +377,12 @@ def check_seek_protocols(ctx, F):
                         bad = 'field %s recorded by pos() is not restored by seek() (becomes %s)' % (sym.path_str(fld), sym.show(fin)[:80])
         n_err = sum(1 for r in ps or [] if r.end == 'return' and rules.ret_shape(r.ret)[0] == 'Err')
         n_seeks = len([1 for x in sym.subterms(snapshot) if isinstance(x, tuple) and x and x[0] == 'call' and x[1] == 'Pos::pos'])
-        if not bad and n_err < n_seeks:
+        n_opaque = sum(1 for r in ps or [] if r.end == 'return' and rules.ret_shape(r.ret)[0] not in ('Ok', 'Err'))
+        if not bad and n_err < n_seeks and not n_opaque:
             bad = 'a backend seek error is not propagated (%d error exits for %d backend seeks)' % (n_err, n_seeks)
-        if bad:
+        if n_opaque and not bad:
+            ctx.unresolved('R1', role, s.defpath, 'seek returns a Result built by a combinator (%d such exits); the rule reads `?`/match forms only' % n_opaque, key=key)
+        elif bad:
             ctx.bad('R1', role, s.defpath, bad, key=key, loc=rules.loc(s))
         elif n_ok != 1:
             ctx.unresolved('R1', role, s.defpath, '%d success paths' % n_ok, key=key)
@@ -417,6 +426,28 @@ def check_seek_refusals(ctx, F):
             ctx.bad('R2', role, b.defpath, bad, key=key, loc=rules.loc(b))
         else:
             ctx.ok('R2', role, b.defpath, '%d error exit(s), each behind a callee\'s answer' % n_err, key=key)
+        # a refused seek leaves the coder where it was: no field of the coder is assigned before a step that can still refuse
+        key2 = 'R2/seek-failure-clean/' + b.defpath
+        role2 = 'nothing is assigned before the last step that can refuse'
+        early = None
+        n_fallible = 0
+        for r in paths:
+            idx_calls = [i for i, e in enumerate(r.events) if e['kind'] == 'call' and e.get('uid') is not None
+                         and (e['callee'].endswith('Seek::seek') or (F.by_def.get(e['callee']) is not None and 'Result<' in (F.by_def[e['callee']].raw.get('sig') or '')))]
+            if not idx_calls:
+                continue
+            n_fallible = max(n_fallible, len(idx_calls))
+            last = idx_calls[-1]
+            for i, e in enumerate(r.events[:last]):
+                if e['kind'] == 'write' and e['path'][:2] == (1, 'deref'):
+                    early = 'field %s is assigned before %s, which can still refuse: after a refused seek the coder is left with the new %s but the old position, so it cannot carry on where it was' % (
+                        sym.path_str(e['path']), r.events[last]['callee'].split('::')[-2] + '::' + r.events[last]['callee'].split('::')[-1], sym.path_str(e['path']).split('.')[-1])
+        if early:
+            ctx.bad('R2', role2, b.defpath, early, key=key2, loc=rules.loc(b))
+        elif n_fallible == 0:
+            ctx.unresolved('R2', role2, b.defpath, 'no fallible step recognised', key=key2)
+        else:
+            ctx.ok('R2', role2, b.defpath, 'all assignments follow the last fallible step (%d fallible step(s))' % n_fallible, key=key2)
     ctx.floor('R2', 'coder Seek impls examined for own refusals', 'stream', n, 3, '%d coder Seek impls' % n, 'R2/floor/seek-refusals', public=True)
 
 
